@@ -125,6 +125,13 @@ def native_c10(has_control, has_calibration, t0, t1, mx):
         return False, f"does not compile for control={has_control}, calibration={has_calibration}: {out[-300:]}", []
     steps = [float(l.split()[2]) for l in out if l.startswith("CALL pm")]
     good, why = stepping_ok(t0, t1, mx, steps)
+    if good:
+        # the returned estimate must be the held estimate with exactly these steps applied, in this order
+        res = [l for l in out if l.startswith("RESULT")]
+        chain = res[0].split("|")[1:] if res else None
+        calls = [l[5:] for l in out if l.startswith("CALL pm")]
+        if chain != calls:
+            good, why = False, f"the returned estimate is not the held estimate propagated through the issued steps in order (estimate history {chain}, steps issued {calls})"
     return good, why, steps
 
 
@@ -147,6 +154,15 @@ def triage_c10(run, rep, low):
         if abs(b - a) / c < 2e5:
             run.native_runs += 1
             good, why, steps = native_c10(hc, hk, a, b, c)
+            if good:
+                # second chance on standard horizons: several full steps plus a remainder, forwards and backwards
+                for a2, b2, c2 in ((0.0, 0.25, 0.1), (1.0, 0.77, 0.05)):
+                    run.native_runs += 1
+                    good, why, steps = native_c10(hc, hk, a2, b2, c2)
+                    if not good:
+                        a, b, c = a2, b2, c2
+                        payload["inputs"] = {"t0": a, "t1": b, "max_dt_sec": c}
+                        break
             payload.update({"native_steps": steps[:40], "oracle_verdict": why})
             confirmed = not good
             if confirmed:
